@@ -247,6 +247,16 @@ def _universe_src() -> str:
           "    def __init__(self, a, b):", "        self.a = a", "        self.b = b",
           "    def __repr__(self):\n        return 'PC_unres(a=%r, b=%r)' % (self.a, self.b)", "MAKE['PC_unres'] = PC_unres"]
     _reg("PC_unres", "annotated-class", "annotated-class", "unresolvable-annotations")
+    # an annotated plain class with a Final-qualified INSTANCE attribute next to a class variable
+    L += ["class PC_fin:", "    a: int", "    CV: typing.ClassVar[int] = 7", "    b: typing.Final[str]",
+          "    def __init__(self, a, b):", "        self.a = a", "        self.b = b",
+          "    def __repr__(self):\n        return 'PC_fin(a=%r, b=%r)' % (self.a, self.b)", "MAKE['PC_fin'] = PC_fin"]
+    _reg("PC_fin", "annotated-class", "annotated-class", "final-qualified-field")
+    # slots-only classes that declare ONE slot by a plain string (Python reads `__slots__ = 'name'` as one slot), in the leaf and in a base
+    L += ["class SOstr_base:", "    __slots__ = 'alpha'", "class SOstr(SOstr_base):", "    __slots__ = 'beta'",
+          "    def __init__(self, a, b):", "        self.alpha = a", "        self.beta = b",
+          "    def __repr__(self):\n        return 'SOstr(alpha=%r, beta=%r)' % (self.alpha, self.beta)", "MAKE['SOstr'] = SOstr"]
+    _reg("SOstr", "slots-only", "slots-only", "string-slot")
     # slots spread over a chain of three classes (grandparent `a`, parent `b`, child `c`)
     L += ["class SO3_a:", "    __slots__ = ('a',)", "class SO3_b(SO3_a):", "    __slots__ = ('b',)", "class SO3(SO3_b):", "    __slots__ = ('c',)",
           "    def __init__(self, a, b, c=5):", "        self.a = a", "        self.b = b", "        self.c = c",
